@@ -364,6 +364,39 @@ def run(R, ctx):
             R.ob(rid, "%s_has_side_effects|effectful-unless-pure-metamethods" % v.lower(), r is True, ctx.where(fn),
                  "`name.x` / `name[k]` with the evaluator's flags %s all false -> %s %s" % (bools, r, why[:1] if r is not True else ""))
 
+    # a composite expression is effectful as soon as ONE of its operand slots holds a call
+    rid_c = "C08.effects-composite"
+    R.rule(rid_c, "Evaluator::has_side_effects, evaluated on composite expressions whose operands are all literals except one slot holding a call: "
+                  "table constructors (the value of a positional / named / computed entry, and the *key* of a computed entry), binary operands, "
+                  "a unary operand, a parenthesised call: the answer is true for every slot. A slot that is not inspected lets the rules that "
+                  "drop unused values drop a call")
+    TE, TFE, TIE, TBL = ("nodes::expressions::table::" + x for x in ("TableEntry", "TableFieldEntry", "TableIndexEntry", "TableExpression"))
+    if R.require(rid_c, "anchor:table-types", all(x in lib.adts for x in (TE, TFE, TIE, TBL)), "", "table ADTs"):
+        call = lambda: Enum(EXPR, "Call", {"0": payload(EXPR, "Call")})
+        pure = lambda: Enum(EXPR, "True", {"0": peval.NONE})
+        idn = make(lib, "nodes::identifier::Identifier", {"name": "k"})
+        cells = {
+            "table|positional-value": lambda: [Enum(TE, "Value", {"0": call()})],
+            "table|field-value": lambda: [Enum(TE, "Field", {"0": make(lib, TFE, {"field": idn, "value": call()})})],
+            "table|index-value": lambda: [Enum(TE, "Index", {"0": make(lib, TIE, {"key": pure(), "value": call()})})],
+            "table|index-key": lambda: [Enum(TE, "Index", {"0": make(lib, TIE, {"key": call(), "value": pure()})})],
+            "table|second-entry": lambda: [Enum(TE, "Value", {"0": pure()}), Enum(TE, "Index", {"0": make(lib, TIE, {"key": call(), "value": pure()})})],
+        }
+        n_c = 0
+        for key, build in cells.items():
+            fn, r, why = ev_("has_side_effects", Enum(EXPR, "Table", {"0": make(lib, TBL, {"entries": build()})}))
+            n_c += 1
+            R.ob(rid_c, "has_side_effects|" + key, r is True, ctx.where(fn) if fn else "", "a call in this slot -> %s %s" % (r, why[:1] if r is not True else ""))
+        plus = Enum("nodes::expressions::binary::BinaryOperator", "Plus")
+        minus = Enum("nodes::expressions::unary::UnaryOperator", "Minus")
+        for key, v, extra in (("binary|left", "Binary", lambda: {"operator": plus, "left": call(), "right": pure()}),
+                              ("binary|right", "Binary", lambda: {"operator": plus, "left": pure(), "right": call()}),
+                              ("unary|operand", "Unary", lambda: {"operator": minus, "expression": call()}), ("parenthese|inner", "Parenthese", lambda: {"expression": call()})):
+            fn, r, why = ev_("has_side_effects", Enum(EXPR, v, {"0": payload(EXPR, v, extra())}))
+            n_c += 1
+            R.ob(rid_c, "has_side_effects|" + key, r is True, ctx.where(fn) if fn else "", "a call in this slot -> %s %s" % (r, why[:1] if r is not True else ""))
+        R.require(rid_c, "floor", n_c >= 9, "", "%d slots" % n_c)
+
     rid = "C08.multi"
     R.rule(rid, "can_return_multiple_values: true for Call and VariableArguments, false for Parenthese (evaluated)")
     for v, want in (("Call", True), ("VariableArguments", True), ("Parenthese", False)):
